@@ -105,10 +105,21 @@ static void scen_stream_fd() {
   int chunk_mode = choose(3, "A.chunk_mode");
   size_t chunk = pick({4096, 1, 2, 7, 100, 255, 256, 257, 16383, 16384, 16385, 65536}, "A.chunk");
   draw_faults(true, false);
-  int fd = vfs::open_stream_fd(D, chunk_mode, chunk);
+  // the descriptor is a pipe-like stream or (one time in four) a regular file opened by path; short
+  // reads are rarer on regular files but just as legal (signals, network and FUSE file systems)
+  bool regular = choose(4, "A.regular") == 3;
+  int fd;
+  if (regular) {
+    vfs::mkfile("/sim/data/input.bin", D);
+    fd = open("/sim/data/input.bin", O_RDONLY);
+    if (!vfs::world().faults.short_read) vfs::world().faults.short_read = (uint32_t)pick({0, 2, 8}, "A.regular.short");
+    VS_PROBE("read_helpers_on_regular_file");
+  } else {
+    fd = vfs::open_stream_fd(D, chunk_mode, chunk);
+  }
   vfs::OpenFile* of = vfs::fd_entry(fd);
   if (chunk_mode) mark_nontrivial();
-  note("stream fd over " + std::to_string(size) + " bytes, chunk_mode=" + std::to_string(chunk_mode) + " chunk=" + std::to_string(chunk));
+  note(string(regular ? "regular file" : "stream") + " fd over " + std::to_string(size) + " bytes, chunk_mode=" + std::to_string(chunk_mode) + " chunk=" + std::to_string(chunk));
   unsigned nops = 1 + choose(4, "A.nops");
   for (unsigned op_i = 0; op_i < nops; op_i++) {
     size_t before = of->pos;
@@ -876,11 +887,16 @@ static void gen_tree(const string& dir, unsigned depth, TreeGen& tg) {
     if (!used.insert(name).second) continue;
     tg.budget--;
     string p = dir + "/" + name;
-    if (depth < 4 && choose(3, "D.isdir") == 2) {
+    unsigned what = choose(8, "D.isdir");
+    if (depth < 4 && what >= 6) {
       tg.all_paths.push_back(p);
       gen_tree(p, depth + 1, tg);
     } else {
-      vfs::mkfile(p, "x");
+      auto n = vfs::mkfile(p, "x");
+      if (what == 5) {
+        n->kind = vfs::Kind::STREAM; // a FIFO (or socket, device...): an entry that is neither file nor directory
+        VS_PROBE("tree_with_fifo");
+      }
       tg.all_paths.push_back(p);
     }
   }
@@ -1069,9 +1085,20 @@ static void scen_scoped_fd() {
   int model[3] = {-2, -2, -2}; // -2: no object; -1: empty object; else fd held
   vfs::world().faults = vfs::Faults();
   vfs::world().faults.eintr_close = (uint32_t)pick({0, 4, 2}, "E.eintr_close");
+  // a process started without stdin: the first descriptor opened in this history is number 0
+  if (choose(4, "E.fd0") == 3) vfs::world().hand_out_fd0 = true;
   unsigned nops = 2 + choose(14, "E.nops");
   mark_nontrivial();
-  auto newest_fd = []() { return vfs::world().next_fd - 1; };
+  // number of the descriptor the last open() returned (0 if this history was handed descriptor 0 just now)
+  bool zero_seen = false;
+  auto newest_fd = [&zero_seen]() {
+    if (vfs::world().fd0_is_virtual && !zero_seen) {
+      zero_seen = true;
+      VS_PROBE("scoped_fd.holds_descriptor_0");
+      return 0;
+    }
+    return vfs::world().next_fd - 1;
+  };
   for (unsigned i = 0; i < nops && !failed(); i++) {
     unsigned s = choose(3, "E.slot");
     unsigned op = choose(11, "E.op");
@@ -1088,6 +1115,10 @@ static void scen_scoped_fd() {
       case 1: // construct from raw descriptor
         if (model[s] == -2) {
           int raw = open(paths[s], O_RDONLY);
+          if (raw == 0) {
+            zero_seen = true;
+            VS_PROBE("scoped_fd.holds_descriptor_0");
+          }
           slot[s].emplace(raw);
           model[s] = raw;
         }
@@ -1114,6 +1145,10 @@ static void scen_scoped_fd() {
       case 4: // assign raw int
         if (model[s] != -2) {
           int raw = open(paths[s], O_RDONLY);
+          if (raw == 0) {
+            zero_seen = true;
+            VS_PROBE("scoped_fd.holds_descriptor_0");
+          }
           *slot[s] = raw;
           model[s] = raw;
         }
@@ -1341,7 +1376,7 @@ int main(int argc, char** argv) {
       {"concurrent deleter process", "stub: task scheduled between the library's directory calls"}};
   e.expected_probes = {"read_all_fd.saw_short_read", "read_all_fd.crossed_16k_block", "read_all_file.error_mid_stream", "read_all_file.crossed_16k_block",
       "fgets.line_longer_than_block", "fgets.line_longer_than_two_blocks", "fgets.line_exactly_block", "readx.threw_on_short", "save_file.threw_on_write_fault",
-      "load_file.threw_on_read_fault", "unlink.threw_on_eacces", "scoped_fd.move_assign_over_open", "scoped_fd.failed_open", "poll.readd_existing", "poll.remove_present", "read_all_fd.real_pipe"};
+      "load_file.threw_on_read_fault", "unlink.threw_on_eacces", "scoped_fd.move_assign_over_open", "scoped_fd.failed_open", "poll.readd_existing", "poll.remove_present", "read_all_fd.real_pipe", "read_helpers_on_regular_file", "tree_with_fifo", "scoped_fd.holds_descriptor_0"};
   e.expected_faults = {"short_read", "short_write", "EIO@read", "EINTR@read", "ENOSPC@write", "EINTR@write", "EINTR@poll", "EACCES@unlink", "EACCES@rmdir", "concurrent_delete", "ENOSPC@capacity", "EINTR@close", "staggered_pipe_write"};
   return driver_main(argc, argv, e);
 }
